@@ -561,15 +561,26 @@ fn run_once(c: &FCase) -> FOut {
             #[cfg(feature = "bstd")]
             32 => {
                 let owner = LyingAsRef { a: vec![7u8; n + 4], b: vec![9u8; n / 2 + 1], script: script.clone(), log: log.clone() };
+                let ra = (owner.a.as_ptr() as usize, owner.a.len());
+                let rb = (owner.b.as_ptr() as usize, owner.b.len());
                 let mut cur = std::io::Cursor::new(owner);
                 cur.set_position((k % 8) as u64);
                 let _ = cur.remaining();
-                let _ = cur.chunk().len();
+                {
+                    // every chunk must lie inside one of the slices the owner ever handed out
+                    let ch = cur.chunk();
+                    let (p, l) = (ch.as_ptr() as usize, ch.len());
+                    let inside = |r: (usize, usize)| p >= r.0 && p.checked_add(l).map_or(false, |e| e <= r.0 + r.1);
+                    if l > 0 && !inside(ra) && !inside(rb) {
+                        range_viol.set(true);
+                        return;
+                    }
+                }
                 if cur.remaining() >= 4 {
-                    let _ = cur.get_u32();
+                    obs(&cur.get_u32().to_le_bytes());
                 }
                 let r = cur.remaining();
-                drop(cur.copy_to_bytes(r.min(k)));
+                obs(&cur.copy_to_bytes(r.min(k)));
                 let r = cur.remaining();
                 cur.advance(r / 2);
             }
@@ -723,7 +734,7 @@ fn run_once(c: &FCase) -> FOut {
         viol = Some(("out-of-bounds-write-behind-dst".into(), "chunks_vectored modified IoSlice entries behind the end of the dst slice it was given".into()));
     }
     if range_viol.get() {
-        viol = Some(("view-outside-owner-memory".into(), "Bytes::from_owner returned a view that is not inside any slice the owner handed out (pointer of one as_ref call combined with the length of another)".into()));
+        viol = Some(("view-outside-owner-memory".into(), "a view / chunk derived from a user AsRef is not inside any slice that impl handed out (pointer of one as_ref call combined with the length of another)".into()));
     }
     // fixed target guards
     if arena[..G].iter().any(|&x| x != 0xA5) || arena[G + 32..].iter().any(|&x| x != 0xA5) {
